@@ -172,6 +172,34 @@ theorem fullMatch_kid (rx : Rx) (cls hex : Ranges) (h : kidClasses rx = some (cl
   simp only [Rx.FullMatch]
   exact kidMatches_iff_language cls hex hpct s
 
+/-! ### uuid-shaped names -/
+
+/-- the bytes of `uuid.UUID.String()`: lower-case hex digits and '-' -/
+def isUuidByte (b : Nat) : Bool := (48 ≤ b && b ≤ 57) || (97 ≤ b && b ≤ 102) || b = 45
+
+def coversUuid (cls : Ranges) : Bool := (List.range 128).all fun b => !isUuidByte b || inRanges cls b
+
+theorem uuid_tokens (cls hex : Ranges) (hc : coversUuid cls = true) :
+    ∀ s : Bytes, (∀ b ∈ s, isUuidByte b = true) → kidTokens cls hex s = true := by
+  intro s
+  induction s with
+  | nil => intro _; rfl
+  | cons b rest ih =>
+    intro h
+    have hb := h b (by simp)
+    have hlt : b < 128 := by
+      unfold isUuidByte at hb
+      simp only [Bool.or_eq_true, Bool.and_eq_true, decide_eq_true_eq] at hb
+      omega
+    have hin : inRanges cls b = true := by
+      unfold coversUuid at hc
+      rw [List.all_eq_true] at hc
+      have := hc b (List.mem_range.mpr hlt)
+      simpa [hb] using this
+    unfold kidTokens
+    simp only [hin, if_true]
+    exact ih (fun x hx => h x (List.mem_cons_of_mem _ hx))
+
 /-! ### path/filepath -/
 
 theorem splitSlash_ne_nil (a : Bytes) : ∃ c cs, splitSlash a = c :: cs := by
@@ -383,15 +411,15 @@ theorem migrateOne_backend (s : Store) (name : String) : (migrateOne s name).bac
   · exact link_backend s name name "1"
 
 theorem bound_migrate (s : Store) (h : Bound s) : Bound (migrate s) := by
-  unfold migrate
-  generalize s.backend.map (·.1) = names
+  unfold migrate migrateNames
+  generalize fsListOrder s = names
   induction names generalizing s with
   | nil => exact h
   | cons n rest ih => exact ih _ (bound_migrateOne s n h)
 
 theorem migrate_backend (s : Store) : (migrate s).backend = s.backend := by
-  unfold migrate
-  generalize s.backend.map (·.1) = names
+  unfold migrate migrateNames
+  generalize fsListOrder s = names
   induction names generalizing s with
   | nil => rfl
   | cons n rest ih => rw [List.foldl_cons, ih, migrateOne_backend]
@@ -487,13 +515,47 @@ theorem bound_new (s : Store) (name : String) (naming : Option String) (hf : Fre
         simp only [alGet_put, e, if_false]
         exact hr
 
+theorem wSave_ok (s : Store) (name : String) (s2 : Store) (k : Nat) (h : wSave valid s name = .ok (s2, k)) :
+    valid name = true ∧ s2 = { s with backend := alPut s.backend name s.nextKey, nextKey := s.nextKey + 1 } := by
+  unfold wSave at h
+  split at h
+  · cases h
+  · split at h
+    · cases h
+    · cases h; exact ⟨by simpa using ‹¬(!valid name) = true›, rfl⟩
+
+theorem step_save (s : Store) (name : String) :
+    step valid s (.save name) = (match wSave valid s name with | .ok (s', _) => s' | .error _ => s) := rfl
+
+theorem bound_save (s : Store) (name : String) (hf : FreshName s name) (h : Bound s) :
+    Bound (step valid s (.save name)) := by
+  obtain ⟨_, hfr⟩ := hf
+  rw [step_save]
+  cases hw : wSave valid s name with
+  | error e => exact h
+  | ok p =>
+    obtain ⟨s2, k⟩ := p
+    obtain ⟨_, hs2⟩ := wSave_ok valid s name s2 k hw
+    subst hs2
+    intro kid k' hp
+    obtain ⟨r, hr, hk⟩ := h kid k' hp
+    refine ⟨r, hr, ?_⟩
+    intro k'' hk''
+    apply hk
+    unfold Store.key at hk'' ⊢
+    simp only [alGet_put] at hk''
+    have hne : r.keyName ≠ name := hfr (kid, r) (alGet_some_mem _ _ _ hr)
+    simpa [hne] using hk''
+
 theorem bound_step (s : Store) (op : Op)
-    (hf : match op with | .new n _ => FreshName s n | _ => True) (h : Bound s) : Bound (step valid s op) := by
+    (hf : match op with | .new n _ => FreshName s n | .save n => FreshName s n | _ => True) (h : Bound s) :
+    Bound (step valid s op) := by
   cases op with
   | new n f => exact bound_new s n f hf h
   | link k n v => exact bound_link s k n v h
   | delete k => exact bound_delete valid s k h
   | migrate => exact bound_migrate s h
+  | save n => exact bound_save valid s n hf h
 
 theorem bound_run (s : Store) (ops : List Op) (hf : FreshHist valid s ops) (h : Bound s) : Bound (run valid s ops) := by
   induction ops generalizing s with
